@@ -22,6 +22,42 @@ type Exec struct {
 	// Twins: further independent worlds executing the same history (C20)
 	Twins   []*World
 	Digests []string // state digest after every action (C20)
+	ctxIDs  []string // contexts in creation order / requests in first-seen order (targets of symbolic references)
+	reqIDs  []string
+	reqSeen map[string]bool
+}
+
+// resolve replaces symbolic references by the concrete IDs of this execution
+func (e *Exec) resolve(a Action) Action {
+	if a.CtxRef != nil && *a.CtxRef >= 0 && *a.CtxRef < len(e.ctxIDs) {
+		a.CtxID = e.ctxIDs[*a.CtxRef]
+	}
+	if a.ReqRef != nil && *a.ReqRef >= 0 && *a.ReqRef < len(e.reqIDs) {
+		a.ReqID = e.reqIDs[*a.ReqRef]
+	}
+	if len(a.Msgs) > 0 {
+		ms := make([]Action, len(a.Msgs))
+		for i, m := range a.Msgs {
+			ms[i] = e.resolve(m)
+		}
+		a.Msgs = ms
+	}
+	return a
+}
+
+func (e *Exec) remember(rec *StepRec) {
+	if rec.OK {
+		e.ctxIDs = append(e.ctxIDs, rec.CtxIDs...)
+	}
+	if e.reqSeen == nil {
+		e.reqSeen = map[string]bool{}
+	}
+	for _, id := range sortedKeys(rec.Post.Reqs) {
+		if !e.reqSeen[id] {
+			e.reqSeen[id] = true
+			e.reqIDs = append(e.reqIDs, id)
+		}
+	}
 }
 
 func NewExec(prop string, cfg Config) *Exec {
@@ -64,7 +100,9 @@ func (e *Exec) Do(a Action) (*StepRec, []Violation) {
 		}
 		return rec, vs
 	}
+	a = e.resolve(a)
 	rec := e.W.Step(a)
+	e.remember(rec)
 	e.Acts = append(e.Acts, a)
 	var vs []Violation
 	if e.Prop == "C20" {
